@@ -204,6 +204,7 @@ static void step(int pi, int op, int id)
         }
         readback(on, k, v, &after);
     }
+    cx_toarray_empty_agree(on);
     vh_evals(1);                     /* classes agree: each produced the model's results */
     e->s = after;
     if (op == OP_INSERT || op == OP_REMOVE) e->last_mut = op;
